@@ -7,7 +7,8 @@
 // lie in the closed box, on its surface, and within PT_TOL*eps*(|pos_j|+|t*dir_j|) of
 // pos + t*dir.
 //
-// class = idx % 8 picks a generator aimed at one boundary class (see gen()).
+// class = idx % 8 picks a generator aimed at one boundary class (see gen()).  In half of the
+// cases zero direction components are passed as -0.0 at random (same geometric line).
 #include "c14_common.h"
 
 using namespace c14;
@@ -32,7 +33,9 @@ inline void
 gen (Rng& r, uint64_t idx, LatCase& k)
 {
     static const int SS[4] = {1, 1, 2, 4};
-    k.S     = SS[r.u64 () & 3];
+    uint64_t bits = r.u64 ();
+    k.S       = SS[bits & 3];
+    k.negzero = (bits & 4) ? (int) ((bits >> 3) & 7) : 0; // half of the cases: zero direction components randomly as -0.0
     int cls = (int) (idx % 8);
     // a non-empty box (flat with probability 1/17 per axis)
     for (int j = 0; j < 3; ++j)
@@ -141,7 +144,8 @@ template <class T>
 void
 sub_wide (Ctx& c, uint64_t b, uint64_t e)
 {
-    Acc A;
+    Acc      A;
+    uint64_t n_negzero = 0;
     for (uint64_t idx = b; idx < e; ++idx)
     {
         Rng     r = c.rng (idx);
@@ -149,9 +153,10 @@ sub_wide (Ctx& c, uint64_t b, uint64_t e)
         gen (r, idx, k);
         uint64_t nt0 = A.n[K_NONTRIV];
         lat_check<T> (c, idx, k, A);
+        if (k.negzero && ((k.d[0] == 0 && (k.negzero & 1)) || (k.d[1] == 0 && (k.negzero & 2)) || (k.d[2] == 0 && (k.negzero & 4)))) ++n_negzero;
         if (A.n[K_NONTRIV] != nt0 && (idx & 3) == 0)
         {
-            uint64_t h = (uint64_t) k.S;
+            uint64_t h = (uint64_t) k.S * 8 + (uint64_t) k.negzero;
             for (int j = 0; j < 3; ++j)
                 h = hash_combine (h, ((uint64_t) (uint8_t) k.lo[j] << 24) | ((uint64_t) (uint8_t) k.hi[j] << 16) | ((uint64_t) (uint8_t) k.p[j] << 8) | (uint8_t) k.d[j]);
             c.nontrivial (h);
@@ -163,17 +168,18 @@ sub_wide (Ctx& c, uint64_t b, uint64_t e)
         }
     }
     acc_flush<T> (c, A, false);
+    if (n_negzero) c.cls ("negative_zero_dir_component", n_negzero);
 }
 
 #define C14_REQ_W {"empty_box", "grazing", "flat_box", "single_point_on_flat_box", "axis_parallel", "origin_inside", "origin_on_surface", "in_face_plane", \
-                   "box_behind_origin", "ray_hit", "ray_miss", "line_hit", "line_miss", "inexact_parameter"}
+                   "box_behind_origin", "ray_hit", "ray_miss", "line_hit", "line_miss", "inexact_parameter", "negative_zero_dir_component"}
 
-MON_SUB (sub_wide<float>, "wide_float", 40000000ull, 1000000000ull)
+MON_SUB (sub_wide<float>, "wide_float", 60000000ull, 1000000000ull)
     .req (C14_REQ_W).chunked (65536)
     .over ("Box3f/Line3f sampled from the lattice {-8..8}/S (S=1,2,4) with directions {-7..7}^3\\{0} (inexact quotients); 8 generators: generic, through a corner, "
            "through an edge point, flat box, axis-parallel, origin inside/on surface, empty box, aimed/near miss; exact truth values, points exact or within "
            "16*eps*(|pos|+|t*dir|), inside the closed box and on its surface; distinct = hash of the 12 integers (every 4th non-trivial case recorded, capped: a lower bound)");
-MON_SUB (sub_wide<double>, "wide_double", 40000000ull, 1000000000ull)
+MON_SUB (sub_wide<double>, "wide_double", 60000000ull, 1000000000ull)
     .req (C14_REQ_W).chunked (65536)
     .over ("Box3d/Line3d: same generators as wide_float");
 } // namespace
